@@ -13,6 +13,7 @@ import (
 
 	"github.com/zerx-lab/wordZero/pkg/document"
 
+	"verifharness/internal/canon"
 	"verifharness/internal/core"
 	"verifharness/internal/gen"
 	"verifharness/internal/opc"
@@ -70,6 +71,10 @@ func sameParts(a, b map[string][]byte) string {
 			return "part " + n + " missing in file"
 		}
 		if !bytes.Equal(a[n], bb) {
+			// parts the library regenerates from maps (styles) may differ in element order only
+			if opc.IsXMLName(n) && canon.EqualXML(a[n], bb, nil) {
+				continue
+			}
 			return "part " + n + " differs"
 		}
 	}
